@@ -27,6 +27,7 @@ theorem inv_stepS (s : GS) (op : SOp) (h : Inv s.tree) (hok : op.ok s = true) : 
   | flag g => exact h
   | stop q => exact h
   | shutdown g => simp only [stepS, shutdownAll_tree]; exact h
+  | restart q => exact h
 
 theorem inv_runS (s : GS) (ops : List SOp) (h : Inv s.tree) : Inv (runS s ops).tree := by
   induction ops generalizing s with
@@ -75,11 +76,20 @@ theorem getD_append_false (l : List Bool) (j : Nat) (h : (l[j]?).getD false = tr
   · rw [List.getElem?_append_left hl]; exact h
   · simp [List.getElem?_eq_none hl] at h
 
-/-- `isShutdown` of a group and "stopped" of a pool are never reset by any operation of the model (the group API has
-no way back: `Group.shutdown` only ever swaps the flag to true). -/
-theorem isShut_stepS (s : GS) (op : SOp) (j : Nat) (h : isShut s j = true) : isShut (stepS s op) j = true := by
+theorem getD_set_other (l : List Bool) (i j : Nat) (b : Bool) (hne : i ≠ j) (h : (l[j]?).getD false = true) :
+    ((l.set i b)[j]?).getD false = true := by
+  rw [List.getElem?_set_ne hne]; exact h
+
+/-- `isShutdown` of a group and "stopped" of a pool are never reset by any operation of the model other than an explicit
+restart of that very pool (the group API has no way back: `Group.shutdown` only ever swaps the flag to true). -/
+theorem isShut_stepS (s : GS) (op : SOp) (j : Nat) (h : isShut s j = true) (hnr : op.restarts j = false) :
+    isShut (stepS s op) j = true := by
   unfold isShut at h ⊢
   cases op with
+  | restart q =>
+    have hne : q ≠ j := by
+      intro e; subst e; simp [SOp.restarts] at hnr
+    exact getD_set_other _ _ _ _ hne h
   | base o =>
     cases o with
     | inc q => simp only [stepS]; split <;> exact h
@@ -94,14 +104,16 @@ theorem isShut_stepS (s : GS) (op : SOp) (j : Nat) (h : isShut s j = true) : isS
     · exact h
     · exact foldl_sdVisit_mono _ _ _ _ (getD_set_true _ _ _ h)
 
-theorem isShut_runS (s : GS) (ops : List SOp) (j : Nat) (h : isShut s j = true) : isShut (runS s ops) j = true := by
+theorem isShut_runS (s : GS) (ops : List SOp) (j : Nat) (h : isShut s j = true)
+    (hnr : ∀ op ∈ ops, op.restarts j = false) : isShut (runS s ops) j = true := by
   induction ops generalizing s with
   | nil => exact h
   | cons op ops ih =>
     simp only [runS]
+    have hnr' : ∀ o ∈ ops, o.restarts j = false := fun o ho => hnr o (List.mem_cons_of_mem _ ho)
     split
-    · exact ih _ (isShut_stepS s op j h)
-    · exact ih _ h
+    · exact ih _ (isShut_stepS s op j h (hnr op (List.mem_cons_self ..))) hnr'
+    · exact ih _ h hnr'
 
 /-- A stopped pool rejects: `inc` on it changes nothing. -/
 theorem stepS_inc_stopped (s : GS) (q : Nat) (h : isShut s q = true) : stepS s (.base (.inc q)) = s := by
@@ -232,6 +244,7 @@ theorem isPoolAt_stepS (s : GS) (op : SOp) (q : Nat) (hq : isPoolAt s.tree q = t
   | flag g => exact hq
   | stop q' => exact hq
   | shutdown g => simp only [stepS, shutdownAll_tree]; exact hq
+  | restart q' => exact hq
 
 /-- One step never increases the counter of a stopped pool. -/
 theorem val_stepS_stopped (s : GS) (op : SOp) (q : Nat) (h : Inv s.tree) (hq : isPoolAt s.tree q = true)
@@ -262,19 +275,22 @@ theorem val_stepS_stopped (s : GS) (op : SOp) (q : Nat) (h : Inv s.tree) (hq : i
   | flag g => exact Nat.le_refl _
   | stop q' => exact Nat.le_refl _
   | shutdown g => simp only [stepS, shutdownAll_tree]; exact Nat.le_refl _
+  | restart q' => exact Nat.le_refl _
 
 theorem val_runS_stopped (s : GS) (ops : List SOp) (q : Nat) (h : Inv s.tree) (hq : isPoolAt s.tree q = true)
-    (hs : isShut s q = true) : val (runS s ops).tree q ≤ val s.tree q := by
+    (hs : isShut s q = true) (hnr : ∀ op ∈ ops, op.restarts q = false) : val (runS s ops).tree q ≤ val s.tree q := by
   induction ops generalizing s with
   | nil => exact Nat.le_refl _
   | cons op ops ih =>
     simp only [runS]
+    have hnr' : ∀ o ∈ ops, o.restarts q = false := fun o ho => hnr o (List.mem_cons_of_mem _ ho)
     split
     · rename_i hok
       exact Nat.le_trans
-        (ih _ (inv_stepS s op h hok) (isPoolAt_stepS s op q hq) (isShut_stepS s op q hs))
+        (ih _ (inv_stepS s op h hok) (isPoolAt_stepS s op q hq)
+          (isShut_stepS s op q hs (hnr op (List.mem_cons_self ..))) hnr')
         (val_stepS_stopped s op q h hq hs)
-    · exact ih _ h hq hs
+    · exact ih _ h hq hs hnr'
 
 /-! ## a whole `Group.Shutdown` flags the group and stops / flags each of its direct children -/
 
@@ -387,6 +403,7 @@ theorem len_stepS (s : GS) (op : SOp) (h : s.shut.length = s.tree.length) :
   | flag g => simp [stepS, h]
   | stop q => simp [stepS, h]
   | shutdown g => simp only [stepS, shutdownAll_tree, shutdownAll_length]; exact h
+  | restart q => simp [stepS, h]
 
 theorem len_runS (s : GS) (ops : List SOp) (h : s.shut.length = s.tree.length) :
     (runS s ops).shut.length = (runS s ops).tree.length := by
